@@ -253,7 +253,9 @@ pub fn check_email(s: &str) -> bool {
         let inner = &domain[1..domain.len() - 1];
         check_ipv4(inner) || inner.strip_prefix("IPv6:").is_some_and(check_ipv6)
     } else {
-        check_hostname(domain)
+        // RFC 5321 sub-domain grammar (label length limits deliberately not asserted)
+        !domain.is_empty()
+            && domain.split('.').all(|l| !l.is_empty() && l.bytes().all(|c| c.is_ascii_alphanumeric() || c == b'-') && !l.starts_with('-') && !l.ends_with('-'))
     };
     local_ok && domain_ok
 }
